@@ -253,7 +253,7 @@ _AGGVEC = {"sum": lambda n: [1.0] * n, "mean": lambda n: [1.0 / n] * n, "first":
 RATE_ENDS = (1.0, 1.331)      # rate form: first and last low-frequency values are concrete, so that rho (and the KKT matrix) is a number
 
 
-def _arip_run(ir, low_k, high_k, nlow, aggregation, target_pos, values=None, lifted=True, form="diff"):
+def _arip_run(ir, low_k, high_k, nlow, aggregation, target_pos, values=None, lifted=True, form="diff", low_miss=()):
     """returns (x symbols dict, target symbols dict, high cells list, contract list)"""
     from irispie.series import arip as ar, _conversions as cv
     start = _period(ir, low_k, 2020 * FREQ[low_k])
@@ -267,7 +267,7 @@ def _arip_run(ir, low_k, high_k, nlow, aggregation, target_pos, values=None, lif
         if form == "rate":
             values = dict(values or {})
             values["y0v0"], values[f"y{nlow - 1}v0"] = RATE_ENDS
-        x = float_series(ir, start, nlow, 1, (), "y", values)
+        x = float_series(ir, start, nlow, 1, tuple(low_miss), "y", values)
         if target_pos is not None:
             target = float_series(ir, hstart, n_high, 1, tmiss, "t", values)
 
@@ -289,7 +289,7 @@ def _arip_run(ir, low_k, high_k, nlow, aggregation, target_pos, values=None, lif
     mods = series_modules()
     conv = lambda diff, f, t: diff * (float(f) / float(t))          # convert_diff without its float() coercion
     with npproxy.installed(proxy, *mods, extra=[(cv, "convert_diff", conv)]), S.Path() as path:
-        x, syms = tagged(ir, start, nlow, 1, (), "y", values=values)
+        x, syms = tagged(ir, start, nlow, 1, tuple(low_miss), "y", values=values)
         if form == "rate":
             x.data[0, 0], x.data[nlow - 1, 0] = RATE_ENDS
             syms.pop("y0v0", None); syms.pop(f"y{nlow - 1}v0", None)
@@ -299,11 +299,13 @@ def _arip_run(ir, low_k, high_k, nlow, aggregation, target_pos, values=None, lif
     return syms, tsyms, h, contract + [path.condition()]
 
 
-def check_arip(run, ir, low_k, high_k, nlow, aggregation, target_pos, form="diff"):
-    key = f"arip:{low_k}->{high_k}:nlow={nlow}:{form}/{aggregation}:target={target_pos}"
-    case = dict(kind="arip", low=low_k, high=high_k, nlow=nlow, aggregation=aggregation, target_pos=target_pos, form=form)
+def check_arip(run, ir, low_k, high_k, nlow, aggregation, target_pos, form="diff", low_miss=()):
+    """low_miss: interior low-frequency periods without an observation (no aggregation constraint there; the average change / rate is
+    still taken between the first and the last observation over the number of PERIODS between them)"""
+    key = f"arip:{low_k}->{high_k}:nlow={nlow}:{form}/{aggregation}:target={target_pos}" + (f":low_miss={list(low_miss)}" if low_miss else "")
+    case = dict(kind="arip", low=low_k, high=high_k, nlow=nlow, aggregation=aggregation, target_pos=target_pos, form=form, low_miss=list(low_miss))
     finding = f"arip:{aggregation}" if form == "diff" else f"arip:rate:{aggregation}"
-    syms, tsyms, h, contract = _arip_run(ir, low_k, high_k, nlow, aggregation, target_pos, form=form)
+    syms, tsyms, h, contract = _arip_run(ir, low_k, high_k, nlow, aggregation, target_pos, form=form, low_miss=low_miss)
     nw = FREQ[high_k] // FREQ[low_k]
     n = nlow * nw
     hc = cellmap(h)
@@ -312,16 +314,18 @@ def check_arip(run, ir, low_k, high_k, nlow, aggregation, target_pos, form="diff
     if any(v is None for v in xs):
         run.counterexample(key, finding, "arip output has missing cells", dict(case, values={}))
         return
-    ys = [syms[f"y{i}v0"][2] if f"y{i}v0" in syms else S.const(S.float_fraction(RATE_ENDS[0 if i == 0 else 1])) for i in range(nlow)]
+    ys = [None if i in low_miss else (syms[f"y{i}v0"][2] if f"y{i}v0" in syms else S.const(S.float_fraction(RATE_ENDS[0 if i == 0 else 1]))) for i in range(nlow)]
     vec = _AGGVEC[aggregation](nw)
     A = np.zeros((nlow, n))
     for i in range(nlow):
         A[i, nw * i:nw * i + nw] = vec
-    rows = [A[i] for i in range(nlow)]
+    rows = [A[i] for i in range(nlow) if i not in low_miss]
     tol = Fraction(1, 10 ** 8)
     claims = []
     full_target_low = set()
     for i in range(nlow):
+        if i in low_miss:
+            continue
         claims.append((f"aggregation constraint {i}", sum(S.float_fraction(A[i, j]) * xs[j] for j in range(n) if A[i, j] != 0), ys[i]))
     if target_pos is not None:
         tsym = tsyms[f"t{target_pos}v0"][2]
@@ -390,7 +394,7 @@ def main(run):
                               "_disaggregate_flat/first/middle/last}", "dates.{create_soy,create_eoy,from_year_segment,to_daily,Ranger}", "series.main.{get_data_from_until,"
                               "iter_own_data_variants_from_until,_replace_start_and_values,trim}"]
     run.bounds["structures"] = ("regular pairs Q->Y, M->Q, H->Y (+ M->Y, M->H, Q->H thorough), start offset over a full coarse period, length up to 2 coarse periods + 1, "
-                                "<=1 interior missing period, variants<=2; daily->monthly around Feb 27-Mar 2 of 2024/2023 (2000, 1900 thorough) and a year end; methods "
+                                "<=1 interior missing period, variants<=2; arip also with interior low-frequency periods without an observation; daily->monthly around Feb 27-Mar 2 of 2024/2023 (2000, 1900 thorough) and a year end; methods "
                                 "sum/prod/mean/first/last/min/max x discard_missing x select; disaggregate flat/first/middle/last + round trips")
     run.bounds["values"] = "one independent real per cell (distinct tags); exact equality"
     run.stubs += ["statistics.mean -> sum/len (its documented contract; statistics' exact-ratio code rejects symbolic scalars)",
@@ -446,12 +450,17 @@ def main(run):
                     for form in ("diff", "rate"):
                         if form == "rate" and nlow < 3:
                             continue
-                        try:
-                            check_arip(run, ir, low_k, high_k, nlow, aggregation, target_pos, form=form)
-                        except S.SymbolicBranchError as exc:
-                            run.unknown(f"arip:{low_k}->{high_k}:{nlow}:{form}/{aggregation}:{target_pos}", exc)
-                        except Exception as exc:
-                            run.error(f"arip:{low_k}->{high_k}:{nlow}:{form}/{aggregation}:{target_pos}", exc)
+                        for low_miss in ((), (1,)) + (((1, 2),) if nlow >= 4 else ()):
+                            if low_miss and (nlow < 3 or (run.tier == "quick" and aggregation not in ("sum", "last"))):
+                                continue
+                            if low_miss and target_pos is not None and target_pos // (FREQ[high_k] // FREQ[low_k]) in low_miss:
+                                continue
+                            try:
+                                check_arip(run, ir, low_k, high_k, nlow, aggregation, target_pos, form=form, low_miss=low_miss)
+                            except S.SymbolicBranchError as exc:
+                                run.unknown(f"arip:{low_k}->{high_k}:{nlow}:{form}/{aggregation}:{target_pos}:{low_miss}", exc)
+                            except Exception as exc:
+                                run.error(f"arip:{low_k}->{high_k}:{nlow}:{form}/{aggregation}:{target_pos}:{low_miss}", exc)
     run.extra["exhaustive"] = True
 
 
@@ -469,14 +478,17 @@ def _replay_arip(ir, case):
         vals["y0v0"], vals[f"y{nlow - 1}v0"] = RATE_ENDS
         for i in range(1, nlow - 1):
             vals[f"y{i}v0"] = max(vals[f"y{i}v0"], 0.5)
-    x, target, h, _ = _arip_run(ir, low_k, high_k, nlow, aggregation, target_pos, values=vals, lifted=False, form=form)
+    low_miss = tuple(case.get("low_miss", ()))
+    x, target, h, _ = _arip_run(ir, low_k, high_k, nlow, aggregation, target_pos, values=vals, lifted=False, form=form, low_miss=low_miss)
     d = h.get_data().flatten()
+    if d.size != n or np.isnan(d).any():
+        return True, f"arip output has {d.size} cells ({int(np.isnan(d).sum()) if d.size else 0} missing) instead of {n}"
     y = np.array([vals[f"y{i}v0"] for i in range(nlow)])
     vec = _AGGVEC[aggregation](nw)
     A = np.zeros((nlow, n))
     for i in range(nlow):
         A[i, nw * i:nw * i + nw] = vec
-    rows, rhs = [A[i] for i in range(nlow)], list(y)
+    rows, rhs = [A[i] for i in range(nlow) if i not in low_miss], [y[i] for i in range(nlow) if i not in low_miss]
     if target_pos is not None:
         T = np.zeros(n); T[target_pos] = 1
         rows.append(T); rhs.append(vals[f"t{target_pos}v0"])
